@@ -22,13 +22,44 @@ pub struct RCfg {
     /// the caller has already read this many events from the reader before handing it to the
     /// library (fragment parsing); the recorded stream is the remaining one
     pub skip_events: usize,
+    /// the underlying Read fails with an I/O error after this many bytes (0 = never): a broken
+    /// pipe, a truncated compressed stream
+    pub fail_after: usize,
+}
+/// a reader over a byte slice that returns an I/O error once `limit` bytes have been delivered
+pub struct FailingRead<'a> {
+    data: &'a [u8],
+    pos: usize,
+    limit: usize,
+    kind: std::io::ErrorKind,
+}
+impl<'a> std::io::Read for FailingRead<'a> {
+    fn read(&mut self, buf: &mut [u8]) -> std::io::Result<usize> {
+        if self.pos >= self.limit {
+            return Err(std::io::Error::new(self.kind, "stream broke"));
+        }
+        let n = buf.len().min(self.limit - self.pos).min(self.data.len() - self.pos.min(self.data.len()));
+        if n == 0 {
+            if self.pos >= self.data.len() {
+                return Ok(0);
+            }
+            return Err(std::io::Error::new(self.kind, "stream broke"));
+        }
+        buf[..n].copy_from_slice(&self.data[self.pos..self.pos + n]);
+        self.pos += n;
+        Ok(n)
+    }
+}
+fn failing<'a>(bytes: &'a [u8], cfg: &RCfg) -> std::io::BufReader<FailingRead<'a>> {
+    let kind = if cfg.fail_after % 2 == 0 { std::io::ErrorKind::UnexpectedEof } else { std::io::ErrorKind::BrokenPipe };
+    std::io::BufReader::with_capacity(cfg.bufcap.max(1), FailingRead { data: bytes, pos: 0, limit: cfg.fail_after, kind })
 }
 impl RCfg {
     pub fn default() -> RCfg {
-        RCfg { trim_text: false, expand_empty: false, check_end_names: true, bufcap: 0, allow_unmatched_ends: false, skip_events: 0 }
+        RCfg { trim_text: false, expand_empty: false, check_end_names: true, bufcap: 0, allow_unmatched_ends: false, skip_events: 0, fail_after: 0 }
     }
     pub fn json(&self) -> J {
-        json::obj(vec![("trim_text", J::B(self.trim_text)), ("expand_empty_elements", J::B(self.expand_empty)), ("check_end_names", J::B(self.check_end_names)), ("bufreader_capacity", J::N(self.bufcap as i64)), ("allow_unmatched_ends", J::B(self.allow_unmatched_ends)), ("events_read_by_caller_first", J::N(self.skip_events as i64))])
+        json::obj(vec![("trim_text", J::B(self.trim_text)), ("expand_empty_elements", J::B(self.expand_empty)), ("check_end_names", J::B(self.check_end_names)), ("bufreader_capacity", J::N(self.bufcap as i64)), ("allow_unmatched_ends", J::B(self.allow_unmatched_ends)), ("events_read_by_caller_first", J::N(self.skip_events as i64)), ("read_fails_after_bytes", J::N(self.fail_after as i64))])
     }
 }
 fn configure<R>(r: &mut Reader<R>, c: &RCfg) {
@@ -156,6 +187,9 @@ fn record_from<R: BufRead>(mut reader: Reader<R>, cfg: &RCfg, tab: &mut ErrTab, 
 /// independent pass over the same bytes with the same reader configuration
 pub fn record(bytes: &[u8], cfg: &RCfg, tab: &mut ErrTab) -> Vec<Ev> {
     let limit = bytes.len() + 8;
+    if cfg.fail_after > 0 {
+        return record_from(Reader::from_reader(failing(bytes, cfg)), cfg, tab, limit);
+    }
     if cfg.bufcap == 0 {
         record_from(Reader::from_reader(bytes), cfg, tab, limit)
     } else {
@@ -442,7 +476,7 @@ pub fn tree_json(t: &Tree) -> J {
     ])
 }
 
-fn classify(e: ParserError, tab: &mut ErrTab) -> ImplResult {
+pub fn classify(e: ParserError, tab: &mut ErrTab) -> ImplResult {
     let disp = format!("{}", e);
     match e {
         ParserError::QuickXmlError(pos, err) => ImplResult::ErrQuickXml(pos, tab.id(format!("{:?}", err)), disp),
@@ -458,7 +492,7 @@ fn classify(e: ParserError, tab: &mut ErrTab) -> ImplResult {
     }
 }
 
-fn parse_one(bytes: &[u8], cfg: &RCfg, prev: Option<Element<String>>) -> Result<Element<String>, ParserError> {
+pub fn parse_one(bytes: &[u8], cfg: &RCfg, prev: Option<Element<String>>) -> Result<Element<String>, ParserError> {
     macro_rules! go {
         ($r:expr) => {{
             let mut reader = $r;
@@ -469,6 +503,9 @@ fn parse_one(bytes: &[u8], cfg: &RCfg, prev: Option<Element<String>>) -> Result<
                 Some(root) => extend_struct(&mut reader, root),
             }
         }};
+    }
+    if cfg.fail_after > 0 {
+        return go!(Reader::from_reader(failing(bytes, cfg)));
     }
     if cfg.bufcap == 0 {
         go!(Reader::from_reader(bytes))
@@ -507,6 +544,40 @@ pub fn run_impl(docs: &[Vec<u8>], cfg: &RCfg, tab: &mut ErrTab) -> ImplResult {
         },
     }
 }
+/// Many calls on ONE thread (no fresh thread per case): whatever a call leaves behind outside its
+/// return value — a thread-local, a static, a cache — must not influence later calls.  `inputs` are
+/// fed one after the other; before, and after every `every` inputs, the reference sequence is parsed
+/// and rendered again and must give the first result.  Returns a description of the first difference.
+pub fn history_check(inputs: &[Vec<u8>], reference: &[Vec<u8>], every: usize) -> Option<String> {
+    let cfg = RCfg::default();
+    let observe = || -> String {
+        let mut tab = ErrTab::default();
+        match run_impl(reference, &cfg, &mut tab) {
+            ImplResult::Tree(t, e) => format!("{:?}\n{}", t, render(&e, &Opts::quick_xml()).unwrap_or_else(|m| format!("render panic {}", m))),
+            other => format!("{}", other.class()),
+        }
+    };
+    let first = observe();
+    let mut errors = 0usize;
+    for (i, inp) in inputs.iter().enumerate() {
+        let mut tab = ErrTab::default();
+        let r = run_impl(&[inp.clone()], &cfg, &mut tab);
+        if !matches!(r, ImplResult::Tree(..)) {
+            errors += 1;
+        }
+        if (i + 1) % every == 0 || i + 1 == inputs.len() {
+            let now = observe();
+            if now != first {
+                return Some(format!(
+                    "after {} calls on one thread ({} of them returned an error) the reference documents give a different result: first {:?}, now {:?}",
+                    i + 1, errors, first.chars().take(400).collect::<String>(), now.chars().take(400).collect::<String>()
+                ));
+            }
+        }
+    }
+    None
+}
+
 /// run_impl on a separate thread with a watchdog: a hang is an outcome, not a stuck harness
 pub fn run_impl_guarded(docs: &[Vec<u8>], cfg: &RCfg, tab: &mut ErrTab, secs: u64) -> ImplResult {
     let (tx, rx) = std::sync::mpsc::channel();
